@@ -106,7 +106,9 @@ func ZZ_C14_H1() {
 	}
 	// C01 clause: the stream is well-formed, so the pipelined request must be handled too - a
 	// handler that stops reading early is no reason to drop the connection
-	zz.Assert("pipelined-request-still-handled", len(seen) == 2)
+	if zz.Param("C01", 0) == 1 {
+		zz.Assert("pipelined-request-still-handled", len(seen) == 2)
+	}
 	if len(seen) >= 2 {
 		zz.Assert("next-request-is-the-sentinel", len(seen) == 2 && seen[1].method == "GET" && seen[1].uri == "/s")
 		zz.Assert("next-request-parsed-from-first-byte-after-body", consumedAtSecond == len(wire))
@@ -254,7 +256,7 @@ func ZZ_C14_BIG() {
 	zz.Assert("no-read-error", !readErr)
 	zz.Assert("bytes-read-are-a-prefix-of-the-body", len(got) <= len(body) && bytes.Equal(got, body[:minInt(len(got), len(body))]))
 	zz.Assert("eof-only-at-end-of-body", !eofEarly)
-	zz.Assert("pipelined-request-still-handled", calls == 2)
+	zz.Cover("pipelined-request-handled", calls == 2) // (that it must be handled is C01's clause: ZZ_C01_BIG)
 	if calls == 2 {
 		zz.Assert("next-request-parsed-from-first-byte-after-body", consumedAtSecond == len(wire))
 	}
@@ -335,7 +337,6 @@ func ZZ_C14_H3() {
 		zz.Assert("next-request-is-the-sentinel", seen[1].method == "GET" && seen[1].uri == "/s")
 		zz.Assert("next-request-parsed-from-first-byte-after-message", consumedAtSecond == len(wire))
 	}
-	if tr <= 1 {
-		zz.Assert("well-formed-trailer-keeps-the-connection", len(seen) == 2)
-	}
+	// (that an ordinary trailer keeps the connection is C01's clause, asserted by ZZ_C01_H3)
+	zz.Cover("ordinary-trailer-kept-the-connection", tr <= 1 && len(seen) == 2)
 }
